@@ -140,7 +140,14 @@ func c15TyDesc(rt reflect.Type) c15J {
 // c15Enc renders a Go value (seen at static type v.Type()) as a value descriptor:
 // {"k":"str","s"} {"k":"int","i"} {"k":"nil"} {"k":"ptr","v"} {"k":"obj","fs":[{"n","v"}]}
 // {"k":"map","kvs":[{"n","v"}] sorted} {"k":"box","t":T,"v":V}
-func c15Enc(v reflect.Value) c15J {
+func c15Enc(v reflect.Value) c15J { return c15EncD(v, 0) }
+
+// (an accepted overlapping mapping set can make the implementation build a cyclic value by
+// writing through a predecessor's map; the depth bound keeps the harness alive)
+func c15EncD(v reflect.Value, depth int) c15J {
+	if depth > 64 {
+		return c15J{"k": "too-deep"}
+	}
 	switch v.Kind() {
 	case reflect.String:
 		return c15J{"k": "str", "s": v.String()}
@@ -151,12 +158,12 @@ func c15Enc(v reflect.Value) c15J {
 			return c15J{"k": "nil"}
 		}
 		e := v.Elem()
-		return c15J{"k": "box", "t": c15TyDesc(e.Type()), "v": c15Enc(e)}
+		return c15J{"k": "box", "t": c15TyDesc(e.Type()), "v": c15EncD(e, depth+1)}
 	case reflect.Ptr:
 		if v.IsNil() {
 			return c15J{"k": "nil"}
 		}
-		return c15J{"k": "ptr", "v": c15Enc(v.Elem())}
+		return c15J{"k": "ptr", "v": c15EncD(v.Elem(), depth+1)}
 	case reflect.Map:
 		if v.IsNil() {
 			return c15J{"k": "nil"}
@@ -168,13 +175,13 @@ func c15Enc(v reflect.Value) c15J {
 		sort.Strings(keys)
 		kvs := []any{}
 		for _, k := range keys {
-			kvs = append(kvs, c15J{"n": k, "v": c15Enc(v.MapIndex(reflect.ValueOf(k)))})
+			kvs = append(kvs, c15J{"n": k, "v": c15EncD(v.MapIndex(reflect.ValueOf(k)), depth+1)})
 		}
 		return c15J{"k": "map", "kvs": kvs}
 	case reflect.Struct:
 		fs := []any{}
 		for i := 0; i < v.NumField(); i++ {
-			fs = append(fs, c15J{"n": v.Type().Field(i).Name, "v": c15Enc(v.Field(i))})
+			fs = append(fs, c15J{"n": v.Type().Field(i).Name, "v": c15EncD(v.Field(i), depth+1)})
 		}
 		return c15J{"k": "obj", "fs": fs}
 	}
